@@ -183,6 +183,11 @@ var (
 		oPat(PatSpec{Scheme: "https", Subs: true, Host: "city.kawasaki.jp"}, false, false),
 		oPat(PatSpec{Scheme: "https", Subs: true, Host: "www.ck"}, false, false),
 		oPat(PatSpec{Scheme: "https", Host: "foo.kawasaki.jp"}, false, false),
+		// the smallest and the largest port, next to other ports of the same host (boundary constants, wave 11)
+		oPat(PatSpec{Scheme: "https", Host: "example.com", Port: 65535}, false, false),
+		oPat(PatSpec{Scheme: "https", Host: "example.com", Port: 1}, false, false),
+		oPat(PatSpec{Scheme: "https", Subs: true, Host: "example.com", Port: 65535}, false, false),
+		oPat(PatSpec{Scheme: "http", Host: "localhost", Port: 65535}, false, false),
 	}
 	insecureOriginAtoms = []OAtom{
 		oPat(PatSpec{Scheme: "http", Host: "example.com"}, true, false),
@@ -341,6 +346,7 @@ var (
 	validReqHdrAtoms = []HAtom{hv("Content-Type"), hv("X-Api-Key"), hv("x-requested-with"), hv("X-LISTED-1"), hv("x-listed-2"),
 		hv("Accept"), hv("If-None-Match"), hv("Foo"), hv("x-a"), hv("x-ab"), hv("X"), hv("Access-Control-Foo"),
 		hv("X_Request_Id"), hv("x_trace_id"), hv("X^Caret"), hv("X.Dot"), hv("X!#$%&'*+.^_`|~Z"), hv("Accept-Language"), hv("x-9"),
+		hv("x-the-quick-brown-fox-jumps-over-a-lazy-dog"), // every letter of the alphabet
 		// long names (there is no documented length limit): around 64, 128 and 256 bytes
 		hv("x-len63-" + strings.Repeat("a", 55)), hv("X-Len64-" + strings.Repeat("b", 56)), hv("x-len65-" + strings.Repeat("c", 57)),
 		hv("x-len128-" + strings.Repeat("d", 119)), hv("X-LEN200-" + strings.Repeat("E", 191)), hv("x-len257-" + strings.Repeat("f", 248))}
@@ -364,7 +370,7 @@ var (
 	hStarAtom = HAtom{"*", hStar, "*"}
 
 	validRespHdrAtoms      = []HAtom{hv("X-Response-Time"), hv("ETag"), hv("location"), hv("X-Exposed-1"), hv("x-exposed-2"), hv("Link"), hv("X-A"), hv("x-b"),
-		hv("X_Rate_Limit"), hv("X^Up"), hv("X.Y~Z"), hv("x-exp-len64-" + strings.Repeat("g", 52)), hv("X-Exp-Len130-" + strings.Repeat("h", 117))}
+		hv("X_Rate_Limit"), hv("X^Up"), hv("X.Y~Z"), hv("X-Sphinx-Of-Black-Quartz-Judge-My-Vow"), hv("x-exp-len64-" + strings.Repeat("g", 52)), hv("X-Exp-Len130-" + strings.Repeat("h", 117))}
 	safelistedRespHdrAtoms = []HAtom{hk("Cache-Control", hSafelisted), hk("content-language", hSafelisted), hk("Content-Length", hSafelisted),
 		hk("CONTENT-TYPE", hSafelisted), hk("Expires", hSafelisted), hk("Last-Modified", hSafelisted), hk("pragma", hSafelisted)}
 	forbiddenRespHdrAtoms  = []HAtom{hk("Set-Cookie", hForbidden), hk("set-cookie2", hForbidden), hk("SET-COOKIE", hForbidden)}
